@@ -86,8 +86,8 @@ def op_setup(op):
     elif op == "rcond_single":
         # single precision + condition estimates on a badly scaled problem: the estimate's final products overflow
         from pgfmc.model import specs as S
-        spec = S.mk(2, "rosen", [], ["free", "free"], x0_idx=3, tight=False)
-        params = R.make_params({"iteration_limit": 60, "newton": "Full", "step_solver": "Standard",
+        spec = G.raw(2, {"rosen": True}, [], ["-inf", "-inf"], ["inf", "inf"], [-1.2, 1.0], "rosenbrock_classic_start")
+        params = R.make_params({"iteration_limit": 300, "newton": "Full", "step_solver": "Standard",
                                 "params": {"report_rcond": True, "precision": "Single"}})
         prob = UserProblem(spec)
     elif op == "exp_far":
@@ -146,10 +146,10 @@ def run_history(hist):
             if last is None:
                 spec, prob, params, lvl = op_setup("default")
                 last = (R.RecSolver(prob, params), spec, prob, params, lvl, "default")
-                rec0 = R.run_solve(prob, params, spec["x0"], spec["y0"], solver=last[0], log_level=lvl)
+                rec0 = R.run_solve(prob, params, spec["x0"], spec["y0"], solver=last[0], log_level=lvl, errstate=False)
                 # a re-solve needs a first solve; its digest is not reported
             solver, spec, prob, params, lvl, base = last
-            rec = R.run_solve(prob, params, spec["x0"], spec["y0"], solver=solver, log_level=lvl)
+            rec = R.run_solve(prob, params, spec["x0"], spec["y0"], solver=solver, log_level=lvl, errstate=False)
             out.append(("resolve:" + ("cb_abort_plain" if base == "cb_abort" else base), rec.digest))
             continue
         spec, prob, params, lvl = op_setup(op)
@@ -166,7 +166,7 @@ def run_history(hist):
                     raise RuntimeError("user callback aborts the solve")
 
             handle = solver.callbacks.register(CallbackType.ComputedStep, bomb)
-        rec = R.run_solve(prob, params, spec["x0"], spec["y0"], solver=solver, log_level=lvl)
+        rec = R.run_solve(prob, params, spec["x0"], spec["y0"], solver=solver, log_level=lvl, errstate=False)
         if op == "cb_abort":
             solver.callbacks.unregister(handle)  # a later re-solve on this solver runs without the aborting callback
         last = (solver, spec, prob, params, lvl, op)
